@@ -31,6 +31,7 @@ RULE = ('R-produced messages (random templates with operators, bitmap tails, att
         'backslashes, blanks, 8-bit characters and text that resembles the text formats\' own syntax) and every '
         'sample file; non-trivial = >= 3 values and (a replication, an attribute, a string or an operator); '
         'distinct by SHA-1 of the message bytes; open-construct shapes, value-less templates, same-layout-different-bitmap subsets; virtual attributes of each subset compared with that subset\'s flat links; command line also with -t <tables root>')
+RULE += '; added with rounds 10-12: conversions repeated after the caller edited the first result in place; the nested view handed to the converter re-read; text renderings with CRLF / no final newline / blanks at line ends / byte-order mark; `encode` from standard input / --append / --preamble / both / -t -d with trailing slash and relative; messages rendered while scans are suspended (mid-scan scenarios); twins'
 ASSUMPTIONS = ['comparison after a JSON round trip with the repository\'s EntityEncoder (bytes -> latin-1 str), as the CLI does',
                'bytes objects returned by the text converters are identified with their latin-1 str',
                'messages whose decode raises are out of scope (property quantifies over decodable messages)']
